@@ -59,7 +59,7 @@ def explore_grammar(args):
             for b in bs: ex.add_base(z3.ULT(b, 0x80))
 
         def body(W):
-            W.globals["CALL_LIMIT"] = 0; W.globals["ERROR_DETAIL"] = False
+            W.globals["CALL_LIMIT"] = 0; W.globals["ERROR_DETAIL"] = bool(opts.get("error_detail"))
             I = Interp(P, W, S)
             vm = pegsym.build_vm(P, vm_rules, I)
             inp = SliceRef(VecObj(list(bs), "input"), 0, n, True)
